@@ -181,7 +181,7 @@ enum Judged {
 }
 
 /// Render, analyse with the real front end, compare with the graphs.
-fn judge(design: &Design, mode: Mode) -> Judged {
+fn judge(design: &Design, _mode: Mode) -> Judged {
     let (text, spans) = render(design);
     let Some(diags) = front::analyze(&text) else {
         return Judged::Skip("generated text does not parse (harness)".into());
@@ -492,7 +492,7 @@ fn reproducer(p: &Value) -> Outcome {
 
 pub fn run(ctx: &Ctx) {
     let big = !ctx.is_quick();
-    let n_main = ctx.scale(4000, 160_000);
+    let n_main = ctx.scale(5000, 160_000);
     let n_def = ctx.scale(500, 10_000);
     // development aid only: scale the case counts (percent)
     let pct: usize = std::env::var("C14_PERCENT").ok().and_then(|x| x.parse().ok()).unwrap_or(100);
@@ -501,6 +501,15 @@ pub fn run(ctx: &Ctx) {
     ctx.run("main", CaseCfg::cases(n_main).choices(8000).shrink_iters(0).timeout_s(1200), |d: &mut Draw| case(d, Mode::Main, big, &known));
     ctx.run("defect-shapes", CaseCfg::cases(n_def).choices(8000).shrink_iters(0).timeout_s(1200), |d: &mut Draw| case(d, Mode::Defects, big, &known));
     ctx.run_payloads("reproducers", reproducer);
+    // second reproducer of the self-read finding (the false-loop direction);
+    // `run_payloads` replays one file per listed finding only
+    if !ctx.replay_mode()
+        && let Ok(t) = std::fs::read_to_string("/verif/known/C14/self_read_statement_false_loop.json")
+        && let Ok(v) = serde_json::from_str::<Value>(&t)
+        && let Some(p) = v.get("payload")
+    {
+        ctx.record("reproducers", reproducer(p), p.clone());
+    }
 
     ctx.note(
         "excluded_by_construction",
